@@ -725,7 +725,7 @@ func bitwiseRightShift(n, s Number) (Number, error) {
 	case Integer:
 		switch s := s.(type) {
 		case Integer:
-			return Integer(n >> s), nil
+			return shiftRightI(n, s)
 		default:
 			return nil, typeError(validTypeInteger, s, nil)
 		}
@@ -740,7 +740,7 @@ func bitwiseLeftShift(n, s Number) (Number, error) {
 	case Integer:
 		switch s := s.(type) {
 		case Integer:
-			return Integer(n << s), nil
+			return shiftLeftI(n, s)
 		default:
 			return nil, typeError(validTypeInteger, s, nil)
 		}
@@ -1311,6 +1311,26 @@ func intFloorDivI(x, y Integer) (Integer, error) {
 		}
 		return q, nil
 	}
+}
+
+func shiftLeftI(n, s Integer) (Integer, error) {
+	switch {
+	case s < 0:
+		return 0, exceptionalValueUndefined
+	case n == 0:
+		return 0, nil
+	case s > 63 || n<<s>>s != n:
+		return 0, exceptionalValueIntOverflow
+	default:
+		return n << s, nil
+	}
+}
+
+func shiftRightI(n, s Integer) (Integer, error) {
+	if s < 0 {
+		return 0, exceptionalValueUndefined
+	}
+	return n >> s, nil
 }
 
 // Float operations
